@@ -357,3 +357,24 @@ func bytesContains(b, sub []byte) bool {
 	}
 	return false
 }
+
+// GatedReader reads from a pipe until closed() holds; then it reports EOF (a process whose stdin
+// goes away when it exits).
+type GatedReader struct {
+	P      *Pipe
+	Closed func() bool
+}
+
+func (g *GatedReader) Read(b []byte) (int, error) {
+	if G == nil || G.aborting {
+		return 0, io.EOF
+	}
+	Point("pipe.read:"+g.P.Name, g.P.obj(), func() bool { return g.Closed() || g.P.readable() })
+	if g.Closed() {
+		return 0, io.EOF
+	}
+	G.evaluating = true // the pipe's own point was just taken
+	n, err := g.P.Read(b)
+	G.evaluating = false
+	return n, err
+}
